@@ -334,8 +334,9 @@ def main():
     if broken:
         cov["broken"] = broken
     if "--replay" not in args:
-        os.makedirs(os.path.join(VERIF, "evidence"), exist_ok=True)
-        json.dump(evid, open(os.path.join(VERIF, "evidence", cid + ".json"), "w"), indent=1)
+        evdir = os.environ.get("VERIF_EVIDENCE_DIR", os.path.join(VERIF, "evidence"))
+        os.makedirs(evdir, exist_ok=True)
+        json.dump(evid, open(os.path.join(evdir, cid + ".json"), "w"), indent=1)
     print("%s %s seed=%d: evaluations=%d distinct=%d race_reports=%d violations=%d known=%d wall=%.0fs" % (
         cid, tier, seed, cov["evaluations"], cov["distinct_nontrivial"], cov["race_reports_total"],
         len(viol_lines), len(seen), evid["wall_s"]))
